@@ -22,7 +22,17 @@ Front ends (DESIGN.md section 4):
   (i) writer front end, second part: PayloadSizes::raw_size, frame_counts, gecko_codes_size -> Gen/WriterRaw.v
       (Proofs/WriterRawLayout.v); the statement sequence of slippi::write -> Gen/WriterSteps.v (Proofs/WriterStepsLayout.v);
   (j) event-handler front end: the arms of parse_event and the impl ParseState helpers (src/io/slippi/de.rs) ->
-      Gen/ParseEvent.v (Proofs/ParseLayout.v).
+      Gen/ParseEvent.v (Proofs/ParseLayout.v);
+  (k) Arrow-glue front end: Data / PortData / Frame :: {data_type, into_struct_array, from_struct_array} of the hand-written
+      head of src/frame/immutable/peppi.rs (children in push order with their version gates, the reader's field-name
+      assertions and positional indices) -> Gen/ArrowFrame.v (Proofs/ArrowFrameLayout.v);
+  (l) frame-level transpose front end: the hand-written Frame / PortData / Data :: transpose_one of
+      src/frame/immutable/mod.rs and src/frame/mutable.rs -> Gen/FrameTranspose.v (Proofs/FrameTransposeLayout.v);
+  (m) reader-prologue front end: parse_header, parse_payloads, parse_game_start (src/io/slippi/de.rs) through the expression
+      front end -> Gen/ReadPrologue.v (Proofs/ReadPrologueLayout.v);
+  (n) .slpp helper front end: read_peppi_gecko_codes / read_peppi_metadata / read_peppi_start / read_peppi_end and the arms of
+      fn read that call them (src/io/peppi/de.rs), the gecko_codes.raw block of src/io/peppi/ser.rs fn write ->
+      Gen/SlppHelpers.v (Proofs/SlppHelpersLayout.v).
 
 Anything it does not recognise is a loud failure (exit 3, message naming file/item/token): the checks then
 treat every property that depends on the tables as "tie broken" and go searching for a failing input.
@@ -3786,6 +3796,994 @@ def gen_parse_event():
     return '\n'.join(L) + '\n'
 
 
+# ------------------------------------------------------------------------------------------------
+# (k) Arrow-glue front end: Data / PortData / Frame :: {data_type, into_struct_array, from_struct_array} -- the hand-written
+#     head of src/frame/immutable/peppi.rs -- and the Display / parse names of game::Port -> Gen/ArrowFrame.v
+
+AF_RS = 'src/frame/immutable/peppi.rs'
+AF_DOWN = r' \. as_any \( \) \. downcast_ref :: < StructArray > \( \) \. unwrap \( \) \. clone \( \)'
+AF_GATE = r'version \. gte \( (\d+) , (\d+) \)'
+AF_PORT_DATA_TYPE = ('DataType :: Struct ( ports . iter ( ) . map ( | p | { Field :: new ( format ! ( "{}" , p . port ) , '
+                     'PortData :: data_type ( version , * p ) . clone ( ) , false ) } ) . collect ( ) )')
+AF_PORTS_VALUES = ('let values : Vec < _ > = std :: iter :: zip ( ports , self . ports ) . map ( | ( occupancy , data ) | '
+                   'data . into_struct_array ( version , * occupancy ) . boxed ( ) ) . collect ( )')
+AF_PORT_DATA_FROM = ('let ( fields , values , _ ) = array . into_data ( ) ; let mut ports = vec ! [ ] ; for i in 0 .. NUM_PORTS { '
+                     'if let Some ( a ) = values . get ( i as usize ) { ports . push ( PortData :: from_struct_array ( '
+                     'a . as_any ( ) . downcast_ref :: < StructArray > ( ) . unwrap ( ) . clone ( ) , version , '
+                     'Port :: parse ( & fields [ i as usize ] . name ) . unwrap ( ) ) ) ; } } ports')
+AF_ITEM_FROM = (r'let \( item , item_offset \) = values \. get \( item_idx \) \. map_or \( \( None , None \) , \| v \| \{ '
+                r'let arrays = v \. as_any \( \) \. downcast_ref :: < ListArray < i32 > > \( \) \. unwrap \( \) \. clone \( \) ; '
+                r'let item_offset = arrays \. offsets \( \) \. clone \( \) ; '
+                r'let item = (\w+) :: from_struct_array \( arrays \. values \( \)' + AF_DOWN + r' , version \) ; '
+                r'\( Some \( item \) , Some \( item_offset \) \) \} \)')
+
+
+def af_split(toks, where, sep=','):
+    sv = StmtView(toks, where)
+    segs, _ = sv.split_top(0, len(toks), sep)
+    return [toks[a:b] for (a, b) in segs]
+
+
+def af_vec(toks, where):
+    """`vec![a, b, ..]` -> the token lists of its elements"""
+    if tv(toks[:3]) != ['vec', '!', '['] or match_close(toks, 2) != len(toks) - 1:
+        raise TranslateError('%s: expected `vec![..]`: %s' % (where, sj(toks)[:200]))
+    return af_split(toks[3:-1], where)
+
+
+def af_field(s, where):
+    """`Field::new("<name>", <type>, false)` -> (name, type text)"""
+    m = re.fullmatch(r'Field :: new \( "(\w+)" , (.*) , false \)', s)
+    if not m:
+        raise TranslateError('%s: expected `Field::new("<name>", <type>, false)`: %s' % (where, s[:200]))
+    return m.group(1), m.group(2)
+
+
+def af_kind(ty, where, level, item_kind=None):
+    """the data type expression of a Field -> Coq akind"""
+    if level == 'frame':
+        m = re.fullmatch(r'DataType :: (\w+)', ty)
+        if m and m.group(1) in ARROW_TY:
+            return 'AkPrim %s' % PRIM_COQ[ARROW_TY[m.group(1)]]
+        if ty == 'Self :: port_data_type ( version , ports ) . clone ( )':
+            return 'AkPorts'
+        if ty == 'Self :: item_data_type ( version ) . clone ( )':
+            return item_kind
+    m = re.fullmatch(r'(\w+) :: data_type \( version \)(?: \. clone \( \))?', ty)
+    if m and m.group(1) in GEN_STRUCTS and level in ('frame', 'data'):
+        return 'AkStruct %s' % coq_str(m.group(1))
+    if m and m.group(1) == 'Data' and level == 'port':
+        return 'AkData'
+    raise TranslateError('%s: unrecognised field type: %s' % (where, ty[:200]))
+
+
+def af_gate_walk(toks, where, leaf, gates=()):
+    """the statements of a block, each `if version.gte(M, m) { .. }` (no else; may nest) or something `leaf(stmts, i)` recognises
+    (-> (number of statements consumed, result)) -> [(result, enclosing gates outermost first)]"""
+    out = []
+    stmts = fw_stmts(toks, where)
+    i = 0
+    while i < len(stmts):
+        ib = fw_if_block(stmts[i], where)
+        if ib is not None:
+            m = re.fullmatch(AF_GATE, ib[0])
+            if not m:
+                raise TranslateError('%s: unrecognised condition: if %s' % (where, ib[0][:200]))
+            out.extend(af_gate_walk(ib[1], where, leaf, gates + ((int(m.group(1)), int(m.group(2))),)))
+            i += 1
+            continue
+        n, res = leaf(stmts, i)
+        out.append((res, gates))
+        i += n
+    return out
+
+
+def af_assert_walk(toks, where, conds=()):
+    """`assert_eq!("<name>", fields[<k>].name);` statements under `if version.gte(..) { } [else if version.gte(..) { }]*`
+    -> [(name, k, conditions)]; a condition is (holds, M, m): the else-if branches carry the negations of the tests before them"""
+    out = []
+    for st in fw_stmts(toks, where):
+        s = sj(st)
+        m = re.fullmatch(r'assert_eq ! \( "(\w+)" , fields \[ (\d+) \] \. name \)', s)
+        if m:
+            out.append((m.group(1), int(m.group(2)), conds))
+            continue
+        if tv(st[:1]) != ['if']:
+            raise TranslateError('%s: unrecognised statement among the field-name assertions: %s' % (where, s[:200]))
+        sv = StmtView(st, where)
+        pos, neg = 0, ()
+        while True:
+            j = sv.first_top(pos + 1, len(st), '{')
+            m = re.fullmatch(AF_GATE, sj(st[pos + 1:j])) if j >= 0 else None
+            if not m:
+                raise TranslateError('%s: unrecognised condition among the field-name assertions: %s' % (where, s[:200]))
+            c = match_close(st, j)
+            g = (int(m.group(1)), int(m.group(2)))
+            out.extend(af_assert_walk(st[j + 1:c], where, conds + neg + ((True,) + g,)))
+            neg = neg + ((False,) + g,)
+            if c == len(st) - 1:
+                break
+            if tv(st[c + 1:c + 3]) == ['else', 'if']:
+                pos = c + 2
+                continue
+            raise TranslateError('%s: `else` without a version test among the field-name assertions: %s' % (where, s[:200]))
+    return out
+
+
+def af_closure(body_re):
+    """`| v | { BODY }` or `| v | BODY`"""
+    return r'\| (\w+) \| (?:\{ )?' + body_re + r'(?: \})?'
+
+
+def gen_arrow_frame():
+    all_toks = tokenize(read(AF_RS), AF_RS)
+    decl_toks = tokenize(read(FW_DECL), FW_DECL)
+    data_decl = parse_struct_decl(decl_toks, 'Data', FW_DECL)
+    port_decl = parse_struct_decl(decl_toks, 'PortData', FW_DECL)
+    frame_decl = parse_struct_decl(decl_toks, 'Frame', FW_DECL)
+    if port_decl != [('port', 'Port'), ('leader', 'Data'), ('follower', 'Option < Data >')]:
+        raise TranslateError('%s: PortData is not { port: Port, leader: Data, follower: Option<Data> }: %s' % (FW_DECL, port_decl))
+    fns = {}
+    for kind, name, frm, body in impl_blocks(all_toks):
+        if kind == 'impl' and name in ('Data', 'PortData', 'Frame'):
+            for n, params, ret, b in fns_in(body):
+                if (name, n) in fns:
+                    raise TranslateError('%s: %s::%s is defined twice' % (AF_RS, name, n))
+                fns[(name, n)] = (params, ret, b)
+    three = ('data_type', 'into_struct_array', 'from_struct_array')
+    expected = {(s, f) for s in ('Data', 'PortData', 'Frame') for f in three} | \
+        {('Frame', 'port_data_type'), ('Frame', 'item_data_type'), ('Frame', 'port_data_from_struct_array')}
+    if set(fns) != expected:
+        raise TranslateError('%s: impl Data/PortData/Frame: expected exactly the functions %s, found %s' % (AF_RS, sorted(expected), sorted(fns)))
+
+    def sig(key, want):
+        if sjp(fns[key][0]) != want:
+            raise TranslateError('%s %s::%s: unexpected parameters: %s' % (AF_RS, key[0], key[1], sjp(fns[key][0])))
+
+    def field_record(decl, field, where, optional):
+        ty = dict(decl).get(field)
+        m = re.fullmatch(r'Option < (\w+) >', ty or '')
+        if ty is None or optional != bool(m):
+            raise TranslateError('%s: self.%s has type %s' % (where, field, ty))
+        return m.group(1) if m else ty
+
+    # ---------------- Data
+    where = '%s Data::data_type' % AF_RS
+    sig(('Data', 'data_type'), 'version : Version')
+    b = fns[('Data', 'data_type')][2]
+    if tv(b[:4]) != ['DataType', '::', 'Struct', '('] or match_close(b, 3) != len(b) - 1:
+        raise TranslateError('%s: not `DataType::Struct(vec![..])`: %s' % (where, sj(b)[:200]))
+    data_dt = []
+    for it in af_vec(b[4:-1], where):
+        nm, ty = af_field(sj(it), where)
+        data_dt.append((nm, af_kind(ty, where, 'data')))
+    where = '%s Data::into_struct_array' % AF_RS
+    sig(('Data', 'into_struct_array'), 'self , version : Version')
+    sts = fw_stmts(fns[('Data', 'into_struct_array')][2], where)
+    if len(sts) != 2 or tv(sts[0][:3]) != ['let', 'values', '=']:
+        raise TranslateError('%s: not `let values = vec![..]; StructArray::new(..)`: %s' % (where, ' ; '.join(sj(x) for x in sts)[:300]))
+    m = re.fullmatch(r'StructArray :: new \( Self :: data_type \( version \) , values , (self \. validity|None) \)', sj(sts[1]))
+    if not m:
+        raise TranslateError('%s: unexpected last statement: %s' % (where, sj(sts[1])[:200]))
+    data_into_validity = m.group(1) != 'None'
+    data_into = []
+    for it in af_vec(sts[0][3:], where):
+        m = re.fullmatch(r'self \. (\w+) \. into_struct_array \( version \) \. boxed \( \)', sj(it))
+        if not m:
+            raise TranslateError('%s: unrecognised element: %s' % (where, sj(it)[:200]))
+        data_into.append((m.group(1), field_record(data_decl, m.group(1), where, False)))
+    where = '%s Data::from_struct_array' % AF_RS
+    sig(('Data', 'from_struct_array'), 'array : StructArray , version : Version')
+    b = fns[('Data', 'from_struct_array')][2]
+    if len(split_stmts(b)) != 2:
+        raise TranslateError('%s: expected `let (_, values, validity) = array.into_data(); Self { .. }`' % where)
+    data_from = []
+    data_from_validity = False
+    for (nm, idx, k, ty, opt) in parse_from_struct_array(b, where):
+        if k == 'sub' and not opt:
+            if field_record(data_decl, nm, where, False) != ty:
+                raise TranslateError('%s: field %s is read with %s::from_struct_array' % (where, nm, ty))
+            data_from.append((nm, idx, ty))
+        elif k == 'validity':
+            data_from_validity = True
+        else:
+            raise TranslateError('%s: unrecognised field %s' % (where, nm))
+
+    # ---------------- PortData
+    where = '%s PortData::data_type' % AF_RS
+    sig(('PortData', 'data_type'), 'version : Version , port : PortOccupancy')
+    sts = fw_stmts(fns[('PortData', 'data_type')][2], where)
+    if len(sts) < 2 or tv(sts[0][:4]) != ['let', 'mut', 'fields', '='] or sj(sts[-1]) != 'DataType :: Struct ( fields )':
+        raise TranslateError('%s: not `let mut fields = vec![..]; .. DataType::Struct(fields)`' % where)
+    port_dt = []
+    for it in af_vec(sts[0][4:], where):
+        nm, ty = af_field(sj(it), where)
+        port_dt.append((nm, af_kind(ty, where, 'port'), False))
+    for st in sts[1:-1]:
+        ib = fw_if_block(st, where)
+        inner = [sj(x) for x in fw_stmts(ib[1], where)] if ib is not None else [sj(st)]
+        if ib is not None and ib[0] != 'port . follower':
+            raise TranslateError('%s: unrecognised condition: if %s' % (where, ib[0][:200]))
+        for s in inner:
+            m = re.fullmatch(r'fields \. push \( (Field :: new \( .* \)) \)', s)
+            if not m:
+                raise TranslateError('%s: unrecognised statement: %s' % (where, s[:200]))
+            nm, ty = af_field(m.group(1), where)
+            port_dt.append((nm, af_kind(ty, where, 'port'), ib is not None))
+    where = '%s PortData::into_struct_array' % AF_RS
+    sig(('PortData', 'into_struct_array'), 'self , version : Version , port : PortOccupancy')
+    sts = fw_stmts(fns[('PortData', 'into_struct_array')][2], where)
+    if len(sts) < 2 or tv(sts[0][:4]) != ['let', 'mut', 'values', '='] or \
+            sj(sts[-1]) != 'StructArray :: new ( Self :: data_type ( version , port ) , values , None )':
+        raise TranslateError('%s: not `let mut values = vec![..]; .. StructArray::new(Self::data_type(version, port), values, None)`' % where)
+    port_into = []
+    for it in af_vec(sts[0][4:], where):
+        m = re.fullmatch(r'self \. (\w+) \. into_struct_array \( version \) \. boxed \( \)', sj(it))
+        if not m or field_record(port_decl, m.group(1), where, False) != 'Data':
+            raise TranslateError('%s: unrecognised element: %s' % (where, sj(it)[:200]))
+        port_into.append((m.group(1), False))
+    for st in sts[1:-1]:
+        ib = fw_if_block(st, where)
+        m = re.fullmatch(r'let Some \( (\w+) \) = self \. (\w+)', ib[0]) if ib is not None else None
+        inner = [sj(x) for x in fw_stmts(ib[1], where)] if m else []
+        if not m or inner != ['values . push ( %s . into_struct_array ( version ) . boxed ( ) )' % m.group(1)] \
+                or field_record(port_decl, m.group(2), where, True) != 'Data':
+            raise TranslateError('%s: expected `if let Some(x) = self.<field> { values.push(x.into_struct_array(version).boxed()); }`: %s'
+                                 % (where, sj(st)[:300]))
+        port_into.append((m.group(2), True))
+    where = '%s PortData::from_struct_array' % AF_RS
+    sig(('PortData', 'from_struct_array'), 'array : StructArray , version : Version , port : Port')
+    sts = fw_stmts(fns[('PortData', 'from_struct_array')][2], where)
+    if len(sts) < 2 or sj(sts[0]) != 'let ( fields , values , _ ) = array . into_data ( )':
+        raise TranslateError('%s: the first statement is not `let (fields, values, _) = array.into_data()`' % where)
+    port_asserts = []
+    for st in sts[1:-1]:
+        s = sj(st)
+        m = re.fullmatch(r'assert_eq ! \( "(\w+)" , fields \[ (\d+) \] \. name \)', s)
+        if m:
+            port_asserts.append((m.group(1), int(m.group(2)), False))
+            continue
+        m = re.fullmatch(r'fields \. get \( (\d+) \) \. map \( \| (\w+) \| (?:\{ )?assert_eq ! \( "(\w+)" , \2 \. name \)(?: ;)?(?: \})? \)', s)
+        if m:
+            port_asserts.append((m.group(3), int(m.group(1)), True))
+            continue
+        raise TranslateError('%s: unrecognised statement: %s' % (where, s[:200]))
+    port_from = []
+    for nm, e in parse_self_literal(sts[-1], where, r'Self'):
+        if nm == 'port' and e == 'port':
+            continue
+        m = re.fullmatch(r'Data :: from_struct_array \( values \[ (\d+) \]' + AF_DOWN + r' , version \)', e)
+        if m and field_record(port_decl, nm, where, False) == 'Data':
+            port_from.append((nm, int(m.group(1)), False))
+            continue
+        m = re.fullmatch(r'values \. get \( (\d+) \) \. map \( ' + af_closure(r'Data :: from_struct_array \( \2' + AF_DOWN + r' , version \)') + r' \)', e)
+        if m and field_record(port_decl, nm, where, True) == 'Data':
+            port_from.append((nm, int(m.group(1)), True))
+            continue
+        raise TranslateError('%s: unrecognised field %s: %s' % (where, nm, e[:200]))
+    if [n for n, _ in parse_self_literal(sts[-1], where, r'Self')] != [n for n, _ in port_decl]:
+        raise TranslateError('%s: the literal does not list the fields of PortData in order' % where)
+
+    # ---------------- Frame: the helpers
+    sig(('Frame', 'port_data_type'), 'version : Version , ports : & [ PortOccupancy ]')
+    if sj(fns[('Frame', 'port_data_type')][2]) != AF_PORT_DATA_TYPE:
+        raise TranslateError('%s Frame::port_data_type: not the expected helper: %s' % (AF_RS, sj(fns[('Frame', 'port_data_type')][2])[:300]))
+    sig(('Frame', 'item_data_type'), 'version : Version')
+    m = re.fullmatch(r'DataType :: List \( Box :: new \( Field :: new \( "(\w+)" , (\w+) :: data_type \( version \)(?: \. clone \( \))? , false \) \) \)',
+                     sj(fns[('Frame', 'item_data_type')][2]))
+    if not m or m.group(2) not in GEN_STRUCTS:
+        raise TranslateError('%s Frame::item_data_type: not `DataType::List(Box::new(Field::new("<name>", <Record>::data_type(version), false)))`: %s'
+                             % (AF_RS, sj(fns[('Frame', 'item_data_type')][2])[:300]))
+    item_inner, item_record = m.group(1), m.group(2)
+    item_kind = 'AkList %s %s' % (coq_str(item_inner), coq_str(item_record))
+    sig(('Frame', 'port_data_from_struct_array'), 'array : StructArray , version : Version')
+    if sj(fns[('Frame', 'port_data_from_struct_array')][2]) != AF_PORT_DATA_FROM:
+        raise TranslateError('%s Frame::port_data_from_struct_array: not the expected helper: %s'
+                             % (AF_RS, sj(fns[('Frame', 'port_data_from_struct_array')][2])[:300]))
+
+    # ---------------- Frame::data_type
+    where = '%s Frame::data_type' % AF_RS
+    sig(('Frame', 'data_type'), 'version : Version , ports : & [ PortOccupancy ]')
+    b = fns[('Frame', 'data_type')][2]
+    sts = fw_stmts(b, where)
+    if len(sts) < 2 or tv(sts[0][:4]) != ['let', 'mut', 'fields', '='] or sj(sts[-1]) != 'DataType :: Struct ( fields )':
+        raise TranslateError('%s: not `let mut fields = vec![..]; .. DataType::Struct(fields)`' % where)
+    frame_dt = []
+    for it in af_vec(sts[0][4:], where):
+        nm, ty = af_field(sj(it), where)
+        frame_dt.append((nm, (), af_kind(ty, where, 'frame', item_kind)))
+
+    def dt_leaf(stmts, i):
+        s = sj(stmts[i])
+        m = re.fullmatch(r'fields \. push \( (Field :: new \( .* \)) \)', s)
+        if not m:
+            raise TranslateError('%s: unrecognised statement: %s' % (where, s[:200]))
+        nm, ty = af_field(m.group(1), where)
+        return 1, (nm, af_kind(ty, where, 'frame', item_kind))
+    mid = [t for st in sts[1:-1] for t in st + [('punct', ';')]]
+    for (nm, k), gs in af_gate_walk(mid, where, dt_leaf):
+        frame_dt.append((nm, gs, k))
+    if len({n for n, _, _ in frame_dt}) != len(frame_dt):
+        raise TranslateError('%s: a field name is pushed twice' % where)
+
+    # ---------------- Frame::into_struct_array
+    where = '%s Frame::into_struct_array' % AF_RS
+    sig(('Frame', 'into_struct_array'), 'self , version : Version , ports : & [ PortOccupancy ]')
+    sts = fw_stmts(fns[('Frame', 'into_struct_array')][2], where)
+    if len(sts) < 3 or sj(sts[0]) != AF_PORTS_VALUES or tv(sts[1][:4]) != ['let', 'mut', 'arrays', '='] \
+            or sj(sts[-1]) != 'StructArray :: new ( Self :: data_type ( version , ports ) , arrays , None )':
+        raise TranslateError('%s: not `let values: Vec<_> = std::iter::zip(ports, self.ports).map(..).collect(); let mut arrays = vec![..]; .. '
+                             'StructArray::new(Self::data_type(version, ports), arrays, None)`' % where)
+    frame_into = []
+    for it in af_vec(sts[1][4:], where):
+        s = sj(it)
+        m = re.fullmatch(r'self \. (\w+) \. boxed \( \)', s)
+        if m and dict(frame_decl).get(m.group(1)) == 'PrimitiveArray < i32 >':
+            frame_into.append(('AsPrimBoxed %s I32' % coq_str(m.group(1)), ()))
+        elif s == 'StructArray :: new ( Self :: port_data_type ( version , ports ) , values , None ) . boxed ( )':
+            frame_into.append(('AsPorts', ()))
+        else:
+            raise TranslateError('%s: unrecognised element of arrays: %s' % (where, s[:200]))
+
+    def into_leaf(stmts, i):
+        s = sj(stmts[i])
+        m = re.fullmatch(r'arrays \. push \( self \. (\w+) \. unwrap \( \) \. into_struct_array \( version \) \. boxed \( \) \)', s)
+        if m:
+            return 1, 'AsStructUnwrap %s %s' % (coq_str(m.group(1)), coq_str(field_record(frame_decl, m.group(1), where, True)))
+        m = re.fullmatch(r'let (\w+) = self \. (\w+) \. unwrap \( \) \. into_struct_array \( version \) \. boxed \( \)', s)
+        if m and i + 1 < len(stmts):
+            m2 = re.fullmatch(r'arrays \. push \( ListArray :: new \( Self :: item_data_type \( version \) , self \. (\w+) \. unwrap \( \) , %s , None \) '
+                              r'\. boxed \( \) \)' % m.group(1), sj(stmts[i + 1]))
+            if m2 and dict(frame_decl).get(m2.group(1)) == 'Option < OffsetsBuffer < i32 > >':
+                return 2, 'AsListUnwrap %s %s %s' % (coq_str(m2.group(1)), coq_str(m.group(2)), coq_str(field_record(frame_decl, m.group(2), where, True)))
+        raise TranslateError('%s: unrecognised statement: %s' % (where, s[:200]))
+    mid = [t for st in sts[2:-1] for t in st + [('punct', ';')]]
+    frame_into.extend(af_gate_walk(mid, where, into_leaf))
+
+    # ---------------- Frame::from_struct_array
+    where = '%s Frame::from_struct_array' % AF_RS
+    sig(('Frame', 'from_struct_array'), 'array : StructArray , version : Version')
+    sts = fw_stmts(fns[('Frame', 'from_struct_array')][2], where)
+    if len(sts) < 4 or sj(sts[0]) != 'let ( fields , values , _ ) = array . into_data ( )':
+        raise TranslateError('%s: the first statement is not `let (fields, values, _) = array.into_data()`' % where)
+    mid = [t for st in sts[1:-3] for t in st + [('punct', ';')]]
+    frame_asserts = af_assert_walk(mid, where)
+    m = re.fullmatch(r'let \( end_idx , item_idx \) = match ' + AF_GATE + r' \{ true => \( Some \( (\d+) \) , (\d+) \) , _ => \( None , (\d+) \) \}', sj(sts[-3]))
+    if not m:
+        raise TranslateError('%s: expected `let (end_idx, item_idx) = match version.gte(M, m) { true => (Some(a), b), _ => (None, c) }`: %s'
+                             % (where, sj(sts[-3])[:300]))
+    idx_gate = (int(m.group(1)), int(m.group(2)))
+    idx_true = (int(m.group(3)), int(m.group(4)))
+    idx_else = int(m.group(5))
+    m = re.fullmatch(AF_ITEM_FROM, sj(sts[-2]))
+    if not m or m.group(1) != item_record:
+        raise TranslateError('%s: the `let (item, item_offset) = values.get(item_idx).map_or((None, None), |v| { .. })` statement is not the expected one: %s'
+                             % (where, sj(sts[-2])[:300]))
+    frame_from = []
+    lit = parse_self_literal(sts[-1], where, r'Self')
+    if [n for n, _ in lit] != [n for n, _ in frame_decl]:
+        raise TranslateError('%s: the literal does not list the fields of Frame in order' % where)
+    for nm, e in lit:
+        m = re.fullmatch(r'values \[ (\d+) \] \. as_any \( \) \. downcast_ref :: < PrimitiveArray < (\w+) > > \( \) \. unwrap \( \) \. clone \( \)', e)
+        if m and dict(frame_decl).get(nm) == 'PrimitiveArray < %s >' % m.group(2) and m.group(2) in PRIM_COQ:
+            frame_from.append((nm, 'FfPrimAt %d %s' % (int(m.group(1)), PRIM_COQ[m.group(2)])))
+            continue
+        m = re.fullmatch(r'Self :: port_data_from_struct_array \( values \[ (\d+) \]' + AF_DOWN + r' , version \)', e)
+        if m and dict(frame_decl).get(nm) == 'Vec < PortData >':
+            frame_from.append((nm, 'FfPortsAt %d' % int(m.group(1))))
+            continue
+        m = re.fullmatch(r'values \. get \( (\d+) \) \. map \( ' + af_closure(r'(\w+) :: from_struct_array \( \2' + AF_DOWN + r' , version \)') + r' \)', e)
+        if m and field_record(frame_decl, nm, where, True) == m.group(3):
+            frame_from.append((nm, 'FfStructGet %d %s' % (int(m.group(1)), coq_str(m.group(3)))))
+            continue
+        m = re.fullmatch(r'match end_idx \{ Some \( (\w+) \) => values \. get \( \1 \) \. map \( '
+                         + af_closure(r'(\w+) :: from_struct_array \( \2' + AF_DOWN + r' , version \)')
+                         + r' \) , None => ' + AF_GATE + r' \. then \( \|\| (\w+) \{ ((?:\w+ : None(?: , )?)*) \} \) \}', e)
+        if m and field_record(frame_decl, nm, where, True) == m.group(3) == m.group(6):
+            cols = [x.split(' : ')[0] for x in m.group(7).split(' , ') if x]
+            want = [n for n, _ in parse_struct_decl(decl_toks, m.group(3), FW_DECL)]
+            if cols != want:
+                raise TranslateError('%s: the empty %s literal does not set every column to None: %s' % (where, m.group(3), cols))
+            frame_from.append((nm, 'FfStructAtEndIdx %s (%d, %d)%%N' % (coq_str(m.group(3)), int(m.group(4)), int(m.group(5)))))
+            continue
+        if e == nm and nm == 'item_offset':
+            frame_from.append((nm, 'FfListOffsetsAtItemIdx'))
+            continue
+        if e == nm and nm == 'item' and field_record(frame_decl, nm, where, True) == item_record:
+            frame_from.append((nm, 'FfListValuesAtItemIdx %s' % coq_str(item_record)))
+            continue
+        raise TranslateError('%s: unrecognised field %s: %s' % (where, nm, e[:300]))
+
+    # ---------------- game::Port: Display and parse
+    gm = 'src/game/mod.rs'
+    gtoks = tokenize(read(gm), gm)
+    codes = dict(enum_codes(gm, 'Port'))
+    disp = None
+    for kind, name, frm, body in impl_blocks(gtoks):
+        if kind == 'other' and name == 'Display for Port':
+            for n, params, ret, bb in fns_in(body):
+                if n == 'fmt':
+                    disp = bb
+    if disp is None:
+        raise TranslateError('%s: impl Display for Port not found' % gm)
+    sts = fw_stmts(disp, gm + ' Display for Port')
+    if len(sts) != 2 or sj(sts[0]) != 'use Port :: *' or tv(sts[1][:4]) != ['match', '*', 'self', '{'] or match_close(sts[1], 3) != len(sts[1]) - 1:
+        raise TranslateError('%s Display for Port: not `use Port::*; match *self { .. }`' % gm)
+    port_display = []
+    for pat, bd in match_arms(sts[1][4:-1], gm + ' Display for Port'):
+        m = re.fullmatch(r'write ! \( f , "(\w+)" \)', bd)
+        if pat not in codes or not m:
+            raise TranslateError('%s Display for Port: unrecognised arm %s => %s' % (gm, pat, bd[:100]))
+        port_display.append((codes[pat], m.group(1)))
+    if sorted(c for c, _ in port_display) != sorted(codes.values()):
+        raise TranslateError('%s Display for Port: not one arm per variant' % gm)
+    params, ret, pb = find_fn(gm, 'Port', 'parse')
+    if tv(pb[:3]) != ['match', 's', '{'] or match_close(pb, 2) != len(pb) - 1:
+        raise TranslateError('%s Port::parse: not `match s { .. }`' % gm)
+    port_parse = []
+    arms = match_arms(pb[3:-1], gm + ' Port::parse')
+    for pat, bd in arms[:-1]:
+        m = re.fullmatch(r'Ok \( Port :: (\w+) \)', bd)
+        if not re.fullmatch(r'"\w+"', pat) or not m or m.group(1) not in codes:
+            raise TranslateError('%s Port::parse: unrecognised arm %s => %s' % (gm, pat, bd[:100]))
+        port_parse.append((pat[1:-1], codes[m.group(1)]))
+    if not arms or arms[-1][0] != '_' or not arms[-1][1].startswith('Err ('):
+        raise TranslateError('%s Port::parse: the last arm is not `_ => Err(..)`' % gm)
+
+    def gates(gs):
+        return '[%s]' % '; '.join('(%d, %d)%%N' % g for g in gs)
+
+    def b(x):
+        return 'true' if x else 'false'
+    L = []
+    L.append('(* GENERATED by tools/rust2coq.py from %s (impl Data, impl PortData, impl Frame: the hand-written head of the file),' % AF_RS)
+    L.append('   the struct declarations of %s and enum Port / Display for Port / Port::parse of src/game/mod.rs -- do not edit. *)' % FW_DECL)
+    L.append('From Coq Require Import NArith List String.')
+    L.append('From Peppi Require Import Layout.Syntax.')
+    L.append('Import ListNotations.')
+    L.append('Local Open Scope string_scope.')
+    L.append('')
+    L.append('(* the data type of a child Field:')
+    L.append('   AkPrim p           DataType::<p>')
+    L.append('   AkStruct R         R::data_type(version)                 (R a generated record: Gen/Tables.v tbl_data_type)')
+    L.append('   AkData             Data::data_type(version)')
+    L.append('   AkPorts            Self::port_data_type(version, ports)  (one child per port, named format!("{}", p.port))')
+    L.append('   AkList inner R     Self::item_data_type(version) = DataType::List(Field::new(inner, R::data_type(version), false)) *)')
+    L.append('Inductive akind := AkPrim (p : prim) | AkStruct (record : string) | AkData | AkPorts | AkList (inner record : string).')
+    L.append('')
+    L.append('(* ---- impl Data ---- *)')
+    L.append('(* data_type: DataType::Struct(vec![Field::new(<name>, <type>, false), ..]) *)')
+    L.append('Definition arrow_data_data_type : list (string * akind) :=\n  [%s].' % '; '.join('(%s, %s)' % (coq_str(n), k) for n, k in data_dt))
+    L.append('(* into_struct_array: values = vec![self.<field>.into_struct_array(version).boxed(), ..] (field, its record type);')
+    L.append('   StructArray::new(Self::data_type(version), values, <self.validity: true | None: false>) *)')
+    L.append('Definition arrow_data_into : list (string * string) :=\n  [%s].' % '; '.join('(%s, %s)' % (coq_str(n), coq_str(r)) for n, r in data_into))
+    L.append('Definition arrow_data_into_validity : bool := %s.' % b(data_into_validity))
+    L.append('(* from_struct_array: <field>: <Record>::from_struct_array(values[<k>].., version); validity: validity *)')
+    L.append('Definition arrow_data_from : list (string * nat * string) :=\n  [%s].' % '; '.join('(%s, %d, %s)' % (coq_str(n), i, coq_str(r)) for n, i, r in data_from))
+    L.append('Definition arrow_data_from_validity : bool := %s.' % b(data_from_validity))
+    L.append('')
+    L.append('(* ---- impl PortData ---- *)')
+    L.append('(* data_type: (name, type, true: pushed only `if port.follower`) *)')
+    L.append('Definition arrow_port_data_type : list (string * akind * bool) :=\n  [%s].' % '; '.join('(%s, %s, %s)' % (coq_str(n), k, b(c)) for n, k, c in port_dt))
+    L.append('(* into_struct_array: (field, true: pushed only `if let Some(x) = self.<field>`); validity None *)')
+    L.append('Definition arrow_port_into : list (string * bool) :=\n  [%s].' % '; '.join('(%s, %s)' % (coq_str(n), b(c)) for n, c in port_into))
+    L.append('(* from_struct_array: assert_eq!(<name>, fields[<k>].name) (true: only when fields.get(<k>) is there) *)')
+    L.append('Definition arrow_port_from_asserts : list (string * nat * bool) :=\n  [%s].' % '; '.join('(%s, %d, %s)' % (coq_str(n), i, b(c)) for n, i, c in port_asserts))
+    L.append('(* ... and <field>: Data::from_struct_array(values[<k>]..) (false) / values.get(<k>).map(..) (true) *)')
+    L.append('Definition arrow_port_from : list (string * nat * bool) :=\n  [%s].' % '; '.join('(%s, %d, %s)' % (coq_str(n), i, b(c)) for n, i, c in port_from))
+    L.append('')
+    L.append('(* ---- impl Frame ---- *)')
+    L.append('(* data_type: the children in push order (the initial vec![..] first), each with the enclosing `if version.gte(M, m)`')
+    L.append('   gates, outermost first *)')
+    L.append('Definition arrow_frame_data_type : list (string * list (N * N) * akind) :=\n  [%s].' % ';\n   '.join(
+        '(%s, %s, %s)' % (coq_str(n), gates(gs), k) for n, gs, k in frame_dt))
+    L.append('(* into_struct_array: the arrays in push order, with their gates:')
+    L.append('   AsPrimBoxed f p             self.<f>.boxed()                                   (f : PrimitiveArray<p>)')
+    L.append('   AsPorts                     StructArray::new(Self::port_data_type(version, ports), values, None).boxed(), values = the')
+    L.append('                               ports zipped with their occupancy, each data.into_struct_array(version, *occupancy).boxed()')
+    L.append('   AsStructUnwrap f R          self.<f>.unwrap().into_struct_array(version).boxed()  (f : Option<R>)')
+    L.append('   AsListUnwrap offs f R       let item_values = self.<f>.unwrap().into_struct_array(version).boxed();')
+    L.append('                               ListArray::new(Self::item_data_type(version), self.<offs>.unwrap(), item_values, None).boxed() *)')
+    L.append('Inductive asrc := AsPrimBoxed (field : string) (p : prim) | AsPorts | AsStructUnwrap (field record : string)')
+    L.append('  | AsListUnwrap (offsets field record : string).')
+    L.append('Definition arrow_frame_into : list (asrc * list (N * N)) :=\n  [%s].' % ';\n   '.join('(%s, %s)' % (s, gates(gs)) for s, gs in frame_into))
+    L.append('(* from_struct_array: assert_eq!(<name>, fields[<k>].name) with the version tests around it, outermost first;')
+    L.append('   (true, M, m): inside `if version.gte(M, m)`; (false, M, m): in an `else if` branch after that test *)')
+    L.append('Definition arrow_frame_from_asserts : list (string * nat * list (bool * N * N)) :=\n  [%s].' % ';\n   '.join(
+        '(%s, %d, [%s])' % (coq_str(n), i, '; '.join('(%s, %d, %d)%%N' % (b(h), M, mm) for h, M, mm in cs)) for n, i, cs in frame_asserts))
+    L.append('(* let (end_idx, item_idx) = match version.gte(M, m) { true => (Some(a), b), _ => (None, c) }: ((M, m), (a, b), c) *)')
+    L.append('Definition arrow_frame_from_idx : (N * N) * (nat * nat) * nat := ((%d, %d)%%N, (%d, %d), %d).' % (idx_gate + idx_true + (idx_else,)))
+    L.append('(* the fields of the result:')
+    L.append('   FfPrimAt k p               values[k] as PrimitiveArray<p>')
+    L.append('   FfPortsAt k                Self::port_data_from_struct_array(values[k].., version)')
+    L.append('   FfStructGet k R            values.get(k).map(|v| R::from_struct_array(v.., version))')
+    L.append('   FfStructAtEndIdx R (M, m)  match end_idx { Some(i) => values.get(i).map(|v| R::from_struct_array(..)),')
+    L.append('                                              None => version.gte(M, m).then(|| R { every column: None }) }')
+    L.append('   FfListOffsetsAtItemIdx     values.get(item_idx): the offsets of the ListArray<i32>')
+    L.append('   FfListValuesAtItemIdx R    values.get(item_idx): R::from_struct_array(the values of the ListArray<i32>, version) *)')
+    L.append('Inductive fsrc := FfPrimAt (idx : nat) (p : prim) | FfPortsAt (idx : nat) | FfStructGet (idx : nat) (record : string)')
+    L.append('  | FfStructAtEndIdx (record : string) (else_gate : N * N) | FfListOffsetsAtItemIdx | FfListValuesAtItemIdx (record : string).')
+    L.append('Definition arrow_frame_from : list (string * fsrc) :=\n  [%s].' % ';\n   '.join('(%s, %s)' % (coq_str(n), s) for n, s in frame_from))
+    L.append('')
+    L.append('(* src/game/mod.rs: `impl Display for Port` (variant code -> text: the name of a port\'s child) and Port::parse (text -> code) *)')
+    L.append('Definition port_display : list (N * string) :=\n  [%s].' % '; '.join('(%d%%N, %s)' % (c, coq_str(s)) for c, s in port_display))
+    L.append('Definition port_parse : list (string * N) :=\n  [%s].' % '; '.join('(%s, %d%%N)' % (coq_str(s), c) for s, c in port_parse))
+    return '\n'.join(L) + '\n'
+
+
+# ------------------------------------------------------------------------------------------------
+# (l) frame-level transpose front end: the hand-written Frame / PortData / Data :: transpose_one of
+#     src/frame/immutable/mod.rs and src/frame/mutable.rs (the per-record ones are generated code: Gen/Tables.v)
+#     -> Gen/FrameTranspose.v
+
+FT_FILES = (('imm', 'src/frame/immutable/mod.rs'), ('mut', 'src/frame/mutable.rs'))
+FT_TR = 'src/frame/transpose.rs'
+
+
+def ft_one(rel, tr_toks):
+    """-> (data rows, portdata rows, frame rows) of one file"""
+    toks = tokenize(read(rel), rel)
+    decls = {s: parse_struct_decl(toks, s, rel) for s in ('Data', 'PortData', 'Frame')}
+    fns = {}
+    for kind, name, frm, body in impl_blocks(toks):
+        if kind == 'impl' and name in ('Data', 'PortData', 'Frame'):
+            for n, params, ret, b in fns_in(body):
+                if n == 'transpose_one':
+                    if name in fns:
+                        raise TranslateError('%s: %s::transpose_one is defined twice' % (rel, name))
+                    fns[name] = (params, ret, b)
+    for s in ('Data', 'PortData', 'Frame'):
+        if s not in fns:
+            raise TranslateError('%s: %s::transpose_one not found' % (rel, s))
+        if sjp(fns[s][0]) != '& self , i : usize , version : Version' or sj(fns[s][1]) != '-> transpose :: %s' % s:
+            raise TranslateError('%s %s::transpose_one: unexpected signature (%s) %s' % (rel, s, sjp(fns[s][0]), sj(fns[s][1])))
+
+    def record(decl, field, where, optional):
+        ty = dict(decl).get(field)
+        m = re.fullmatch(r'Option < (\w+) >', ty or '')
+        if ty is None or optional != bool(m):
+            raise TranslateError('%s: self.%s has type %s' % (where, field, ty))
+        return m.group(1) if m else ty
+
+    def literal(s):
+        where = '%s %s::transpose_one' % (rel, s)
+        lit = parse_self_literal(fns[s][2], where, r'transpose :: %s' % s)
+        v = tv(fns[s][2])
+        if match_close(fns[s][2], v.index('{')) != len(v) - 1:
+            raise TranslateError('%s: tokens after the transpose::%s literal' % (where, s))
+        want = [n for n, _ in parse_struct_decl(tr_toks, s, FT_TR)]
+        if [n for n, _ in lit] != want:
+            raise TranslateError('%s: the literal does not list the fields of transpose::%s in order: %s' % (where, s, [n for n, _ in lit]))
+        return where, lit
+
+    # ---- Data
+    where, lit = literal('Data')
+    data_rows = []
+    for nm, e in lit:
+        m = re.fullmatch(r'self \. (\w+) \. transpose_one \( i , version \)', e)
+        if not m:
+            raise TranslateError('%s: unrecognised field %s: %s' % (where, nm, e[:200]))
+        rec = record(decls['Data'], m.group(1), where, False)
+        if rec not in GEN_STRUCTS:
+            raise TranslateError('%s: field %s: %s is not a generated record' % (where, m.group(1), rec))
+        data_rows.append((nm, m.group(1), rec))
+    # ---- PortData
+    where, lit = literal('PortData')
+    port_rows = []
+    for nm, e in lit:
+        m = re.fullmatch(r'self \. (\w+)', e)
+        if m and dict(decls['PortData']).get(m.group(1)) == 'Port':
+            port_rows.append((nm, 'TpCopy %s' % coq_str(m.group(1))))
+            continue
+        m = re.fullmatch(r'self \. (\w+) \. transpose_one \( i , version \)', e)
+        if m and record(decls['PortData'], m.group(1), where, False) == 'Data':
+            port_rows.append((nm, 'TpData %s false' % coq_str(m.group(1))))
+            continue
+        m = re.fullmatch(r'self \. (\w+) \. as_ref \( \) \. map \( \| (\w+) \| (?:\{ )?\2 \. transpose_one \( i , version \)(?: \})? \)', e)
+        if m and record(decls['PortData'], m.group(1), where, True) == 'Data':
+            port_rows.append((nm, 'TpData %s true' % coq_str(m.group(1))))
+            continue
+        raise TranslateError('%s: unrecognised field %s: %s' % (where, nm, e[:200]))
+    # ---- Frame
+    where, lit = literal('Frame')
+    frame_rows = []
+    THEN = r'version \. gte \( (\d+) , (\d+) \) \. then \( \|\| '
+    for nm, e in lit:
+        m = re.fullmatch(r'self \. (\w+) \. values \( \) \[ i \]', e)
+        if m and re.fullmatch(r'(?:Mutable)?PrimitiveArray < i32 >', dict(decls['Frame']).get(m.group(1), '')):
+            frame_rows.append((nm, 'TsIdValue %s' % coq_str(m.group(1)), None))
+            continue
+        m = re.fullmatch(r'self \. (\w+) \. iter \( \) \. map \( \| (\w+) \| (?:\{ )?\2 \. transpose_one \( i , version \)(?: \})? \) \. collect \( \)', e)
+        if m and dict(decls['Frame']).get(m.group(1)) == 'Vec < PortData >':
+            frame_rows.append((nm, 'TsPortsMap %s' % coq_str(m.group(1)), None))
+            continue
+        m = re.fullmatch(THEN + r'(?:\{ )?self \. (\w+) \. as_ref \( \) \. unwrap \( \) \. transpose_one \( i , version \)(?: \})? \)', e)
+        if m:
+            rec = record(decls['Frame'], m.group(3), where, True)
+            if rec not in GEN_STRUCTS:
+                raise TranslateError('%s: field %s: %s is not a generated record' % (where, m.group(3), rec))
+            frame_rows.append((nm, 'TsRow %s %s' % (coq_str(m.group(3)), coq_str(rec)), (int(m.group(1)), int(m.group(2)))))
+            continue
+        m = re.fullmatch(THEN + r'\{ let \( (\w+) , (\w+) \) = self \. (\w+) \. as_ref \( \) \. unwrap \( \) \. start_end \( i \) ; '
+                         r'\( \3 \.\. \4 \) \. map \( \| (\w+) \| (?:\{ )?self \. (\w+) \. as_ref \( \) \. unwrap \( \) \. transpose_one \( \6 , version \)(?: \})? \) '
+                         r'\. collect \( \) \} \)', e)
+        if m and re.fullmatch(r'Option < Offsets(?:Buffer)? < i32 > >', dict(decls['Frame']).get(m.group(5), '')):
+            rec = record(decls['Frame'], m.group(7), where, True)
+            if rec not in GEN_STRUCTS:
+                raise TranslateError('%s: field %s: %s is not a generated record' % (where, m.group(7), rec))
+            frame_rows.append((nm, 'TsItems %s %s %s' % (coq_str(m.group(5)), coq_str(m.group(7)), coq_str(rec)), (int(m.group(1)), int(m.group(2)))))
+            continue
+        raise TranslateError('%s: unrecognised field %s: %s' % (where, nm, e[:300]))
+    return data_rows, port_rows, frame_rows
+
+
+def gen_frame_transpose():
+    tr_toks = tokenize(read(FT_TR), FT_TR)
+    L = []
+    L.append('(* GENERATED by tools/rust2coq.py from the hand-written Data / PortData / Frame :: transpose_one of %s and' % FT_FILES[0][1])
+    L.append('   %s (field lists of the targets from %s) -- do not edit. *)' % (FT_FILES[1][1], FT_TR))
+    L.append('From Coq Require Import NArith List String.')
+    L.append('Import ListNotations.')
+    L.append('Local Open Scope string_scope.')
+    L.append('')
+    L.append('(* PortData::transpose_one, the fields of the transpose::PortData literal:')
+    L.append('   TpCopy f          self.<f>')
+    L.append('   TpData f false    self.<f>.transpose_one(i, version)                      (f : Data)')
+    L.append('   TpData f true     self.<f>.as_ref().map(|x| x.transpose_one(i, version))  (f : Option<Data>) *)')
+    L.append('Inductive psrc := TpCopy (field : string) | TpData (field : string) (optional : bool).')
+    L.append('(* Frame::transpose_one, the fields of the transpose::Frame literal (evaluated in this order), each with the version')
+    L.append('   of its `version.gte(M, m).then(|| ..)` (None: unconditional):')
+    L.append('   TsIdValue f         self.<f>.values()[i]')
+    L.append('   TsPortsMap f        self.<f>.iter().map(|p| p.transpose_one(i, version)).collect()')
+    L.append('   TsRow f R           self.<f>.as_ref().unwrap().transpose_one(i, version)     (f : Option<R>)')
+    L.append('   TsItems offs f R    let (start, end) = self.<offs>.as_ref().unwrap().start_end(i);')
+    L.append('                       (start..end).map(|i| self.<f>.as_ref().unwrap().transpose_one(i, version)).collect() *)')
+    L.append('Inductive tsrc := TsIdValue (field : string) | TsPortsMap (field : string) | TsRow (field record : string)')
+    L.append('  | TsItems (offsets field record : string).')
+    for key, rel in FT_FILES:
+        d, p, f = ft_one(rel, tr_toks)
+        L.append('')
+        L.append('(* ---- %s ---- *)' % rel)
+        L.append('(* Data::transpose_one: (field of transpose::Data, source field, its record type): self.<source>.transpose_one(i, version) *)')
+        L.append('Definition %s_data_transpose : list (string * string * string) :=\n  [%s].' % (key, '; '.join(
+            '(%s, %s, %s)' % (coq_str(a), coq_str(b_), coq_str(c)) for a, b_, c in d)))
+        L.append('Definition %s_portdata_transpose : list (string * psrc) :=\n  [%s].' % (key, '; '.join('(%s, %s)' % (coq_str(a), b_) for a, b_ in p)))
+        L.append('Definition %s_frame_transpose : list (string * tsrc * option (N * N)) :=\n  [%s].' % (key, ';\n   '.join(
+            '(%s, %s, %s)' % (coq_str(a), b_, 'None' if g is None else 'Some (%d, %d)%%N' % g) for a, b_, g in f)))
+    return '\n'.join(L) + '\n'
+
+
+# ------------------------------------------------------------------------------------------------
+# (m) reader-prologue front end: parse_header, parse_payloads, parse_game_start (and the two calls at the head of
+#     parse_start) of src/io/slippi/de.rs, io::expect_bytes -> Gen/ReadPrologue.v
+
+RP_IO = 'src/io/mod.rs'
+RP_EXPECT_BYTES = ('let mut actual = vec ! [ 0 ; expected . len ( ) ] ; r . read_exact ( & mut actual ) ? ; '
+                   'if expected == actual . as_slice ( ) { Ok ( ( ) ) } else { Err ( err ! ( "expected: {:?}, got: {:?}" , expected , actual ) ) }')
+RP_DEBUG_DUMP = (r'if let Some \( ref d \) = opts \. as_ref \( \) \. and_then \( \| o \| o \. debug \. as_ref \( \) \) '
+                 r'\{ debug_write_event \( & buf , code , None , d \) \? ; \}')
+RP_ERR = r'\{ return Err \( err ! \( .* \) \)(?: ;)? \}'
+
+
+class P2(P):
+    """the expression parser with the remainder operator"""
+    BIN = dict(P.BIN, **{'%': 6})
+
+
+class G2(G):
+    def e(self, a):
+        if a[0] == 'bin' and a[1] == '%':
+            return '(N.modulo %s %s)' % (self.e(a[2]), self.e(a[3]))
+        return G.e(self, a)
+
+
+def expr_to_gallina2(text, env, where, coq_name, binders, ret_ty):
+    p = P2(tokenize(text, where), where)
+    ast = p.expr()
+    if not p.done():
+        raise TranslateError('%s: trailing tokens in expression: %s' % (where, text[:200]))
+    return 'Definition %s %s : %s := %s.' % (coq_name, ' '.join('(%s : N)' % x for x in binders), ret_ty, G2(env, where).e(ast))
+
+
+def gen_read_prologue():
+    all_toks = tokenize(read(DE_RS), DE_RS)
+    if find_seq(all_toks, ['type', 'BE', '=', 'byteorder', '::', 'BigEndian', ';']) < 0:
+        raise TranslateError('%s: `type BE = byteorder::BigEndian;` not found' % DE_RS)
+    if find_seq(all_toks, ['type', 'PayloadSizes', '=', '[', 'Option', '<', 'NonZeroU16', '>', ';', '256', ']', ';']) < 0:
+        raise TranslateError('%s: `type PayloadSizes = [Option<NonZeroU16>; 256];` not found' % DE_RS)
+    events = dict(enum_codes(DE_RS, 'Event'))
+    D = []
+
+    # ---- io::expect_bytes
+    params, ret, body = find_fn(RP_IO, None, 'expect_bytes')
+    if sj(body) != RP_EXPECT_BYTES or sjp(params) != 'r : & mut R , expected : & [ u8 ]':
+        raise TranslateError('%s fn expect_bytes: not the expected helper: %s' % (RP_IO, sj(body)[:300]))
+    if 'expect_bytes' not in imported_from(DE_RS, ['io']) and find_seq(all_toks, ['expect_bytes', ',']) < 0:
+        raise TranslateError('%s: expect_bytes is not imported from crate::io' % DE_RS)
+
+    # ---- parse_header
+    where = '%s fn parse_header' % DE_RS
+    params, ret, body = find_fn(DE_RS, None, 'parse_header')
+    if sjp(params) != 'mut r : R , _opts : Option < & Opts >' or not re.fullmatch(r'-> Result < u(16|32|64) >', sj(ret)):
+        raise TranslateError('%s: unexpected signature (%s) %s' % (where, sjp(params), sj(ret)))
+    m = strict_match(not_logs([sj(x) for x in fw_stmts(body, where)]), [
+        ('`expect_bytes(&mut r, &super::FILE_SIGNATURE)?`', r'expect_bytes \( & mut r , & super :: (\w+) \) \?'),
+        ('`Ok(r.read_uN::<BE>()?)`', r'Ok \( r \. read_(u16|u32|u64) :: < BE > \( \) \? \)'),
+    ], where)
+    if m[0].group(1) != 'FILE_SIGNATURE':
+        raise TranslateError('%s: the signature is not super::FILE_SIGNATURE: %s' % (where, m[0].group(1)))
+    if sj(ret) != '-> Result < %s >' % m[1].group(1):
+        raise TranslateError('%s: reads a %s but returns %s' % (where, m[1].group(1), sj(ret)))
+    D.append('(* parse_header: expect_bytes(&mut r, &super::FILE_SIGNATURE)?; Ok(r.read_%s::<BE>()?) *)' % m[1].group(1))
+    D.append('Definition header_signature : list N := SLIPPI_FILE_SIGNATURE.')
+    D.append('Definition header_len_width : nat := %d%%nat.' % READ_W[m[1].group(1)])
+
+    # ---- parse_payloads
+    where = '%s fn parse_payloads' % DE_RS
+    params, ret, body = find_fn(DE_RS, None, 'parse_payloads')
+    if sjp(params) != 'mut r : R , opts : Option < & Opts >' or sj(ret) != '-> Result < ( usize , PayloadSizes ) >':
+        raise TranslateError('%s: unexpected signature (%s) %s' % (where, sjp(params), sj(ret)))
+    pl_stmts = [x for x in fw_stmts(body, where) if not re.fullmatch(LOG_MACRO, sj(x))]
+    m = strict_match([sj(x) for x in pl_stmts], [
+        ('`let code = r.read_u8()?`', r'let code = r \. read_u8 \( \) \?'),
+        ('`if code != Event::X as u8 { return Err(..) }`', r'if code != Event :: (\w+) as u8 ' + RP_ERR),
+        ('`let size = r.read_u8()?`', r'let size = r \. read_u8 \( \) \?'),
+        ('`if <test on size> { return Err(..) }`', r'if (.*) ' + RP_ERR),
+        ('`let mut buf = vec![0; <len> as usize]`', r'let mut buf = vec ! \[ 0 ; (.*) \]'),
+        ('`r.read_exact(&mut buf)?`', r'r \. read_exact \( & mut buf \) \?'),
+        ('`let buf = &mut &buf[..]`', r'let buf = & mut & buf \[ \.\. \]'),
+        ('the debug dump', RP_DEBUG_DUMP),
+        ('`let mut sizes: PayloadSizes = [None; 256]`', r'let mut sizes : PayloadSizes = \[ None ; 256 \]'),
+        ('`for _ in (0..<upper>).step_by(<n>) { .. }`', r'for _ in \( 0 \.\. (.*) \) \. step_by \( (\d+) \) \{ (.*) \}'),
+        ('`sizes[Event::X as usize].ok_or_else(..)?`', r'sizes \[ Event :: (\w+) as usize \] \. ok_or_else \( \|\| err ! \( .* \) \) \?'),
+        ('`sizes[Event::X as usize].ok_or_else(..)?`', r'sizes \[ Event :: (\w+) as usize \] \. ok_or_else \( \|\| err ! \( .* \) \) \?'),
+        ('`Ok((<bytes read>, sizes))`', r'Ok \( \( (.*) , sizes \) \)'),
+    ], where)
+    for k in (1, 10, 11):
+        if m[k].group(1) not in events:
+            raise TranslateError('%s: Event::%s is not a variant of de::Event' % (where, m[k].group(1)))
+    env = {'size': 'size'}
+    D.append('')
+    D.append('(* parse_payloads: let code = r.read_u8()?; if code != Event::%s as u8 { return Err(..) } *)' % m[1].group(1))
+    D.append('Definition payloads_event : N := Event_%s.' % m[1].group(1))
+    D.append('(* let size = r.read_u8()?; if %s { return Err(..) } *)' % m[3].group(1))
+    D.append(expr_to_gallina2(m[3].group(1), env, where, 'payloads_size_refused', ['size'], 'bool'))
+    D.append('(* let mut buf = vec![0; %s]; r.read_exact(&mut buf)? *)' % m[4].group(1))
+    D.append(expr_to_gallina2(m[4].group(1), env, where, 'payloads_buf_len', ['size'], 'N'))
+    D.append('(* for _ in (0..%s).step_by(%s) { <one entry> } *)' % (m[9].group(1), m[9].group(2)))
+    D.append(expr_to_gallina2(m[9].group(1), env, where, 'payloads_loop_upper', ['size'], 'N'))
+    if int(m[9].group(2)) == 0:
+        raise TranslateError('%s: step_by(0)' % where)
+    D.append('Definition payloads_loop_step : N := %d.' % int(m[9].group(2)))
+    w2 = where + ' (entry loop)'
+    lb = strict_match([sj(x) for x in fw_stmts(fw_for_block(pl_stmts[9], w2)[1], w2)], [
+        ('`let code = buf.read_u8()?`', r'let code = buf \. read_(u8) \( \) \?'),
+        ('`let size = buf.read_uN::<BE>()?`', r'let size = buf \. read_(u16|u32) :: < BE > \( \) \?'),
+        ('`sizes[code as usize] = Some(NonZeroU16::new(size).ok_or_else(..)?)`',
+         r'sizes \[ code as usize \] = Some \( NonZeroU16 :: new \( size \) \. ok_or_else \( \|\| err ! \( .* \) \) \? \)'),
+    ], w2)
+    D.append('(* the reads of one entry, in order (name, bytes; big-endian); a zero size is rejected (NonZeroU16::new(size).ok_or_else(..)?),')
+    D.append('   and sizes[code] = Some(size) overwrites an earlier entry for the same code *)')
+    D.append('Definition payloads_entry_reads : list (string * nat) := [("code", %d%%nat); ("size", %d%%nat)].' % (READ_W[lb[0].group(1)], READ_W[lb[1].group(1)]))
+    D.append('Definition payloads_zero_size_rejected : bool := true.')
+    D.append('(* sizes[Event::X as usize].ok_or_else(..)?, in order *)')
+    D.append('Definition payloads_required : list N := [Event_%s; Event_%s].' % (m[10].group(1), m[11].group(1)))
+    D.append('(* Ok((%s, sizes)) *)' % m[12].group(1))
+    D.append(expr_to_gallina2(m[12].group(1), env, where, 'payloads_bytes_read', ['size'], 'N'))
+
+    # ---- parse_game_start
+    where = '%s fn parse_game_start' % DE_RS
+    params, ret, body = find_fn(DE_RS, None, 'parse_game_start')
+    if sjp(params) != 'mut r : R , payload_sizes : & PayloadSizes , bytes_read : usize , opts : Option < & Opts >' \
+            or sj(ret) != '-> Result < ( usize , game :: Start ) >':
+        raise TranslateError('%s: unexpected signature (%s) %s' % (where, sjp(params), sj(ret)))
+    m = strict_match(not_logs([sj(x) for x in fw_stmts(body, where)]), [
+        ('`let code = r.read_u8()?`', r'let code = r \. read_u8 \( \) \?'),
+        ('`let size = payload_sizes[code as usize].ok_or_else(..)?.get() as usize`',
+         r'let size = payload_sizes \[ code as usize \] \. ok_or_else \( \|\| err ! \( .* \) \) \? \. get \( \) as usize'),
+        ('`let mut buf = vec![0; size]`', r'let mut buf = vec ! \[ 0 ; size \]'),
+        ('`r.read_exact(&mut buf)?`', r'r \. read_exact \( & mut buf \) \?'),
+        ('the debug dump', RP_DEBUG_DUMP),
+        ('`match Event::try_from(code) { Ok(Event::X) => Ok((<bytes read>, game_start(&mut &*buf)?)), _ => Err(..) }`',
+         r'match Event :: try_from \( code \) \{ Ok \( Event :: (\w+) \) => Ok \( \( (.*) , game_start \( & mut & \* buf \) \? \) \) , _ => Err \( err ! \( .* \) \) \}'),
+    ], where)
+    if m[5].group(1) not in events:
+        raise TranslateError('%s: Event::%s is not a variant of de::Event' % (where, m[5].group(1)))
+    D.append('')
+    D.append('(* parse_game_start: code, size = payload_sizes[code].ok_or_else(..)?, read_exact of size bytes,')
+    D.append('   match Event::try_from(code) { Ok(Event::%s) => Ok((%s, game_start(&mut &*buf)?)), _ => Err(..) } *)' % (m[5].group(1), m[5].group(2)))
+    D.append('Definition game_start_event : N := Event_%s.' % m[5].group(1))
+    D.append(expr_to_gallina2(m[5].group(2), {'bytes_read': 'bytes_read', 'size': 'size'}, where, 'game_start_bytes_read', ['bytes_read', 'size'], 'N'))
+
+    # ---- parse_start: how the two are chained
+    where = '%s fn parse_start' % DE_RS
+    params, ret, body = find_fn(DE_RS, None, 'parse_start')
+    sts = not_logs([sj(x) for x in fw_stmts(body, where)])
+    strict_match(sts[:2], [
+        ('`let (bytes_read, payload_sizes) = parse_payloads(&mut r, opts)?`', r'let \( bytes_read , payload_sizes \) = parse_payloads \( & mut r , opts \) \?'),
+        ('`let (bytes_read, start) = parse_game_start(&mut r, &payload_sizes, bytes_read, opts)?`',
+         r'let \( bytes_read , start \) = parse_game_start \( & mut r , & payload_sizes , bytes_read , opts \) \?'),
+    ], where)
+    for fn in ('parse_payloads', 'parse_game_start'):
+        if tv(body).count(fn) != 1:
+            raise TranslateError('%s: %s is called more than once' % (where, fn))
+
+    L = []
+    L.append('(* GENERATED by tools/rust2coq.py from %s (fn parse_header, fn parse_payloads, fn parse_game_start, the head of' % DE_RS)
+    L.append('   fn parse_start) and %s (fn expect_bytes) -- do not edit.' % RP_IO)
+    L.append('   The expressions are translated by the expression front end (every integer an N, comparisons boolean). *)')
+    L.append('From Coq Require Import NArith Bool List String.')
+    L.append('From Peppi Require Import Gen.Funs.')
+    L.append('Import ListNotations.')
+    L.append('Local Open Scope string_scope.')
+    L.append('Local Open Scope N_scope.')
+    L.append('')
+    L.extend(D)
+    return '\n'.join(L) + '\n'
+
+
+# ------------------------------------------------------------------------------------------------
+# (n) .slpp helper front end: read_peppi_gecko_codes / read_peppi_metadata / read_peppi_start / read_peppi_end and the arms of
+#     fn read that call them (src/io/peppi/de.rs), the gecko_codes.raw block of fn write (src/io/peppi/ser.rs)
+#     -> Gen/SlppHelpers.v   (assert_current_version itself is already in Gen/Funs.v)
+
+def gen_slpp_helpers():
+    de_toks = tokenize(read(SLPP_DE), SLPP_DE)
+    D = []
+
+    def helper(name, want_params, want_ret):
+        params, ret, body = find_fn(SLPP_DE, None, name)
+        where = '%s fn %s' % (SLPP_DE, name)
+        if sjp(params) != want_params or sj(ret) != want_ret:
+            raise TranslateError('%s: unexpected signature (%s) %s' % (where, sjp(params), sj(ret)))
+        return where, body
+
+    # ---- read_peppi_gecko_codes
+    where, body = helper('read_peppi_gecko_codes', 'mut r : R', '-> Result < game :: GeckoCodes >')
+    decl = parse_struct_decl(tokenize(read('src/game/mod.rs'), 'src/game/mod.rs'), 'GeckoCodes', 'src/game/mod.rs')
+    if sorted(decl) != [('actual_size', 'u32'), ('bytes', 'Vec < u8 >')]:
+        raise TranslateError('src/game/mod.rs: struct GeckoCodes is not { bytes: Vec<u8>, actual_size: u32 }: %s' % decl)
+    m = strict_match(not_logs([sj(x) for x in fw_stmts(body, where)]), [
+        ('`let mut actual_size = [0; N]`', r'let mut actual_size = \[ 0 ; (\d+) \]'),
+        ('`r.read_exact(&mut actual_size)?`', r'r \. read_exact \( & mut actual_size \) \?'),
+        ('`let mut bytes = Vec::new()`', r'let mut bytes = Vec :: new \( \)'),
+        ('`r.read_to_end(&mut bytes)?`', r'r \. read_to_end \( & mut bytes \) \?'),
+        ('`Ok(game::GeckoCodes { actual_size: u32::from_le_bytes(actual_size), bytes: bytes })`',
+         r'Ok \( game :: GeckoCodes \{ actual_size : u32 :: from_(le|be)_bytes \( actual_size \) , bytes(?: : bytes)? \} \)'),
+    ], where)
+    if int(m[0].group(1)) != 4:
+        raise TranslateError('%s: a u32 from a %s-byte array' % (where, m[0].group(1)))
+    D.append('(* read_peppi_gecko_codes: let mut actual_size = [0; %s]; r.read_exact(&mut actual_size)?; the rest with read_to_end;' % m[0].group(1))
+    D.append('   actual_size: u32::from_%s_bytes(actual_size) *)' % m[4].group(1))
+    D.append('Definition slpp_gecko_size_len : nat := %d.' % int(m[0].group(1)))
+    D.append('Definition slpp_gecko_read_little_endian : bool := %s.' % ('true' if m[4].group(1) == 'le' else 'false'))
+
+    # ---- the gecko_codes.raw block of the writer
+    where = '%s fn write' % SLPP_SER
+    params, ret, body = find_fn(SLPP_SER, None, 'write')
+    blocks = []
+    for st in fw_stmts(body, where):
+        if tv(st[:1]) == ['if'] and ('id', 'gecko_codes') in st:
+            blocks.append(st)
+    ib = fw_if_block(blocks[0], where) if len(blocks) == 1 else None
+    mm = re.fullmatch(r'let Some \( (\w+) \) = & game \. gecko_codes', ib[0]) if ib else None
+    if not mm:
+        raise TranslateError('%s: expected exactly one `if let Some(x) = &game.gecko_codes { .. }`' % where)
+    x = mm.group(1)
+    m = strict_match([sj(s) for s in fw_stmts(ib[1], where)], [
+        ('`let mut buf = x.actual_size.to_le_bytes().to_vec()`', r'let mut buf = %s \. actual_size \. to_(le|be)_bytes \( \) \. to_vec \( \)' % x),
+        ('`buf.write_all(&x.bytes)?`', r'buf \. write_all \( & %s \. bytes \) \?' % x),
+        ('`tar_append(&mut tar, &buf, "gecko_codes.raw")?`', r'tar_append \( & mut tar , & buf , "gecko_codes\.raw" \) \?'),
+    ], where + ' (gecko_codes block)')
+    D.append('(* %s fn write: let mut buf = x.actual_size.to_%s_bytes().to_vec(); buf.write_all(&x.bytes)?; tar_append(.., &buf, "gecko_codes.raw")? *)'
+             % (SLPP_SER, m[0].group(1)))
+    D.append('Definition slpp_gecko_write_little_endian : bool := %s.' % ('true' if m[0].group(1) == 'le' else 'false'))
+
+    # ---- read_peppi_metadata
+    where, body = helper('read_peppi_metadata', 'r : R', '-> Result < Option < JsMap > >')
+    if find_seq(de_toks, ['type', 'JsMap', '=', 'serde_json', '::', 'Map', '<', 'String', ',', 'serde_json', '::', 'Value', '>', ';']) < 0:
+        raise TranslateError('%s: `type JsMap = serde_json::Map<String, serde_json::Value>;` not found' % SLPP_DE)
+    sts = fw_stmts(body, where)
+    if len(sts) != 2 or sj(sts[0]) != 'let json_object : serde_json :: Value = serde_json :: from_reader ( r ) ?' \
+            or tv(sts[1][:3]) != ['match', 'json_object', '{'] or match_close(sts[1], 2) != len(sts[1]) - 1:
+        raise TranslateError('%s: not `let json_object: serde_json::Value = serde_json::from_reader(r)?; match json_object { .. }`' % where)
+    arms = match_arms(sts[1][3:-1], where)
+    meta = []
+    for pat, bd in arms[:-1]:
+        pm = re.fullmatch(r'serde_json :: Value :: (\w+)(?: \( (\w+) \))?', pat)
+        if not pm or pm.group(1) in [a for a, _ in meta]:
+            raise TranslateError('%s: unrecognised or repeated pattern: %s' % (where, pat[:100]))
+        if bd == 'Ok ( None )':
+            res = 'MrNone'
+        elif pm.group(1) == 'Object' and pm.group(2) and bd == 'Ok ( Some ( %s ) )' % pm.group(2):
+            res = 'MrSomeMap'
+        elif re.fullmatch(r'Err \( err ! \( .* \) \)', bd):
+            res = 'MrErr'
+        else:
+            raise TranslateError('%s: unrecognised arm %s => %s' % (where, pat[:100], bd[:100]))
+        meta.append((pm.group(1), res))
+    if not arms or not re.fullmatch(r'_|[a-z]\w*', arms[-1][0]) or not re.fullmatch(r'Err \( err ! \( .* \) \)', arms[-1][1]):
+        raise TranslateError('%s: the last arm is not a catch-all returning Err(..)' % where)
+    D.append('(* read_peppi_metadata: match <the JSON value> { serde_json::Value::<Variant> => .., <anything else> => Err(..) }:')
+    D.append('   MrNone: Ok(None); MrSomeMap: Ok(Some(map)) of Value::Object(map); MrErr: Err(..) *)')
+    D.append('Inductive meta_res := MrNone | MrSomeMap | MrErr.')
+    D.append('Definition slpp_meta_arms : list (string * meta_res) := [%s].' % '; '.join('(%s, %s)' % (coq_str(a), r) for a, r in meta))
+
+    # ---- read_peppi_start / read_peppi_end
+    decoders = []
+    for fn, rty in (('read_peppi_start', 'game :: Start'), ('read_peppi_end', 'game :: End')):
+        where, body = helper(fn, 'mut r : R', '-> Result < %s >' % rty)
+        m = strict_match([sj(x) for x in fw_stmts(body, where)], [
+            ('`let mut buf = Vec::new()`', r'let mut buf = Vec :: new \( \)'),
+            ('`r.read_to_end(&mut buf)?`', r'r \. read_to_end \( & mut buf \) \?'),
+            ('`slippi::de::<decoder>(&mut &buf[..])`', r'slippi :: de :: (\w+) \( & mut & buf \[ \.\. \] \)'),
+        ], where)
+        decoders.append((fn, m[2].group(1)))
+    D.append('(* read_peppi_start / read_peppi_end: the whole entry (read_to_end), decoded by slippi::de::<decoder> *)')
+    D.append('Definition slpp_raw_decoders : list (string * string) := [%s].' % '; '.join('(%s, %s)' % (coq_str(a), coq_str(b_)) for a, b_ in decoders))
+
+    # ---- the arms of fn read that call the helpers
+    where = '%s fn read' % SLPP_DE
+    params, ret, body = find_fn(SLPP_DE, None, 'read')
+    loops = [st for st in fw_stmts(body, where) if tv(st[:1]) == ['for']]
+    fb = fw_for_block(loops[0], where) if len(loops) == 1 else None
+    if fb is None:
+        raise TranslateError('%s: expected exactly one `for` loop' % where)
+    ms = [st for st in fw_stmts(fb[1], where) if tv(st[:1]) == ['match']]
+    if len(ms) != 1:
+        raise TranslateError('%s: expected exactly one `match` in the entry loop' % where)
+    j = StmtView(ms[0], where).first_top(1, len(ms[0]), '{')
+    if j < 0 or match_close(ms[0], j) != len(ms[0]) - 1:
+        raise TranslateError('%s: unexpected tokens after the match' % where)
+    helpers = ('read_peppi_start', 'read_peppi_end', 'read_peppi_metadata', 'read_peppi_gecko_codes')
+    calls = []
+    peppi_arm = None
+    for pat, bd0 in match_arms(ms[0][j + 1:-1], where):
+        bd = bd0[:-2] if bd0.endswith(' ;') and ' ; ' not in bd0 else bd0      # `=> { x = f(file)?; }`
+        pm = re.fullmatch(r'Some \( "([\w.\-]+)" \)', pat)
+        mm = re.fullmatch(r'(\w+) = Some \( (\w+) \( file \) \? \)', bd)
+        if pm and mm and mm.group(2) in helpers:
+            calls.append((pm.group(1), mm.group(1), mm.group(2), True))
+            continue
+        mm = re.fullmatch(r'(\w+) = (\w+) \( file \) \?', bd)
+        if pm and mm and mm.group(2) in helpers:
+            calls.append((pm.group(1), mm.group(1), mm.group(2), False))
+            continue
+        if 'assert_current_version' in bd:
+            want = ('let p : peppi :: Peppi = serde_json :: from_reader :: < _ , peppi :: Peppi > ( file ) ? ; '
+                    'super :: assert_current_version ( p . version ) ? ; peppi = Some ( p ) ;')
+            if not pm or bd != want or peppi_arm is not None:
+                raise TranslateError('%s: the arm that checks the version is not `Some("<name>") => { let p: peppi::Peppi = serde_json::from_reader::<_, '
+                                     'peppi::Peppi>(file)?; super::assert_current_version(p.version)?; peppi = Some(p); }`: %s' % (where, bd[:300]))
+            peppi_arm = pm.group(1)
+            continue
+        if any(h in bd.split(' ') for h in helpers):
+            raise TranslateError('%s: unrecognised arm that calls a helper: %s => %s' % (where, pat[:100], bd[:200]))
+    for h in helpers + ('assert_current_version',):
+        n = tv(body).count(h)
+        if n != 1 or (h in helpers and [c[2] for c in calls].count(h) != 1):
+            raise TranslateError('%s: %s is not called exactly once, in an arm of the match on the file name' % (where, h))
+    if peppi_arm is None:
+        raise TranslateError('%s: no arm calls assert_current_version' % where)
+    D.append('(* fn read: the arms `Some("<entry>") => <var> = Some(<helper>(file)?)` (true) / `<var> = <helper>(file)?` (false) *)')
+    D.append('Definition slpp_read_calls : list (string * string * string * bool) :=\n  [%s].' % ';\n   '.join(
+        '(%s, %s, %s, %s)' % (coq_str(a), coq_str(b_), coq_str(c), 'true' if d else 'false') for a, b_, c, d in calls))
+    D.append('(* ... and the arm of %s: let p = serde_json::from_reader(file)?; super::assert_current_version(p.version)?; peppi = Some(p) *)' % coq_str(peppi_arm))
+    D.append('Inductive peppi_step := PjDecode | PjAssertCurrentVersion | PjStore.')
+    D.append('Definition slpp_peppi_entry : string := %s.' % coq_str(peppi_arm))
+    D.append('Definition slpp_peppi_arm : list peppi_step := [PjDecode; PjAssertCurrentVersion; PjStore].')
+
+    L = []
+    L.append('(* GENERATED by tools/rust2coq.py from %s (fn read_peppi_gecko_codes, fn read_peppi_metadata, fn read_peppi_start,' % SLPP_DE)
+    L.append('   fn read_peppi_end, the arms of fn read) and %s (the gecko_codes.raw block of fn write) -- do not edit. *)' % SLPP_SER)
+    L.append('From Coq Require Import List String.')
+    L.append('Import ListNotations.')
+    L.append('Local Open Scope string_scope.')
+    L.append('')
+    L.extend(D)
+    return '\n'.join(L) + '\n'
+
+
 def write_if_changed(path, content):
     os.makedirs(os.path.dirname(path), exist_ok=True)
     try:
@@ -3806,7 +4804,8 @@ def main():
                       ('WriterSizes.v', gen_payload_sizes), ('SlppEntries.v', gen_slpp_entries),
                       ('FrameWrite.v', gen_frame_write), ('Splitter.v', gen_splitter),
                       ('ReadTail.v', gen_read_tail), ('UbjsonMarkers.v', gen_ubjson_markers),
-                      ('WriterRaw.v', gen_writer_raw), ('WriterSteps.v', gen_writer_steps), ('ParseEvent.v', gen_parse_event)):
+                      ('WriterRaw.v', gen_writer_raw), ('WriterSteps.v', gen_writer_steps), ('ParseEvent.v', gen_parse_event),
+                      ('ArrowFrame.v', gen_arrow_frame), ('FrameTranspose.v', gen_frame_transpose), ('ReadPrologue.v', gen_read_prologue), ('SlppHelpers.v', gen_slpp_helpers)):
         try:
             content = gen()
             if write_if_changed(os.path.join(OUT, name), content):
